@@ -38,6 +38,9 @@ pub struct Variant {
     pub hashseed: u64,
     pub env: Vec<(String, String)>,
     pub subdir: bool,
+    /// name of the input file when given by path (its extension may contradict the content)
+    #[serde(default)]
+    pub filename: Option<String>,
 }
 
 #[derive(Clone, Debug, Serialize, Deserialize)]
@@ -80,6 +83,7 @@ fn gen_variant(rng: &mut Rng, payload_vcf: &[u8], l1: bool, thorough: bool) -> V
         hashseed: 1,
         env: vec![],
         subdir: false,
+        filename: None,
     };
     let max_blocks = if thorough { 400 } else { 64 };
     let pick_container = |rng: &mut Rng| *rng.pick(&[Container::VcfGz, Container::Bcf, Container::BcfRaw, Container::VcfGz, Container::Bcf]);
@@ -93,7 +97,7 @@ fn gen_variant(rng: &mut Rng, payload_vcf: &[u8], l1: bool, thorough: bool) -> V
             _ => default_layout(),
         }
     };
-    let dim = if l1 { *rng.pick(&[0u64, 1, 2, 3, 5, 5]) } else { rng.below(8) };
+    let dim = if l1 { *rng.pick(&[0u64, 1, 2, 3, 5, 5]) } else { rng.below(9) };
     match dim {
         0 => {
             v.label = "container".into();
@@ -140,6 +144,14 @@ fn gen_variant(rng: &mut Rng, payload_vcf: &[u8], l1: bool, thorough: bool) -> V
             }
             v.subdir = rng.chance(1, 2);
         }
+        8 => {
+            v.label = "filename".into();
+            v.container = *rng.pick(&Container::ALL);
+            v.layout = layout_for(rng, v.container);
+            v.filename = Some(
+                (*rng.pick(&["in.vcf", "in.bcf", "in.vcf.gz", "in.bcf.gz", "IN.VCF", "data.txt", "in", "in.gz", "x.vcf.bcf", "a b.vcf"])).to_string(),
+            );
+        }
         _ => {
             v.label = "repeat".into();
             v.hashseed = rng.next_u64() >> 1;
@@ -182,8 +194,9 @@ fn exec_l2(ctx: &mut Ctx, cfg: &Config, bytes: &[u8], v: &Variant) -> l2::ChildR
     let hexed = gen::hex(bytes);
     let (stdin, files) = match v.transport {
         Transport::Path => {
-            args.push(if v.subdir { "../in.dat".to_string() } else { "@DIR@/in.dat".to_string() });
-            (Stdin::Null, vec![("in.dat".to_string(), hexed)])
+            let name = v.filename.clone().unwrap_or_else(|| "in.dat".to_string());
+            args.push(if v.subdir { format!("../{name}") } else { format!("@DIR@/{name}") });
+            (Stdin::Null, vec![(name, hexed)])
         }
         Transport::StdinFile => (Stdin::File(hexed), vec![]),
         Transport::StdinPipe => {
@@ -269,6 +282,7 @@ impl Prop for C12 {
             hashseed: 1,
             env: vec![],
             subdir: false,
+            filename: None,
         };
         let has_l2 = case.variants.iter().any(|v| !v.l1);
         let has_l1 = case.variants.iter().any(|v| v.l1);
@@ -299,7 +313,7 @@ impl Prop for C12 {
                 out.inconclusive += 1;
                 continue;
             };
-            out.nontrivial.push(fnv_u64(fnv1a(&bytes), fnv1a(format!("{:?}{}{:?}{}{:?}", v.transport, v.threads, v.env, v.hashseed, v.l1).as_bytes())));
+            out.nontrivial.push(fnv_u64(fnv1a(&bytes), fnv1a(format!("{:?}{}{:?}{}{:?}{:?}", v.transport, v.threads, v.env, v.hashseed, v.l1, v.filename).as_bytes())));
             out.count(&format!("variant.{}.{}", if v.l1 { "l1" } else { "l2" }, v.label), 1);
             out.count(&format!("container.{}", v.container.name()), 1);
             if v.layout.blocks.iter().any(|&b| b == 0) {
@@ -411,6 +425,11 @@ impl Prop for C12 {
                 y.hashseed = 1;
                 v.push(Case { variants: vec![y], ..case.clone() });
             }
+            if x.filename.is_some() {
+                let mut y = x.clone();
+                y.filename = None;
+                v.push(Case { variants: vec![y], ..case.clone() });
+            }
             if !x.layout.blocks.is_empty() {
                 let mut y = x.clone();
                 y.layout = default_layout();
@@ -445,7 +464,7 @@ impl Prop for C12 {
             "variants": case.variants.iter().take(6).map(|v| json!({
                 "layer": if v.l1 {"L1"} else {"L2"}, "dimension": v.label, "container": v.container.name(),
                 "bgzf_blocks": v.layout.blocks.len(), "empty_blocks": v.layout.blocks.iter().filter(|&&b| b==0).count(),
-                "transport": format!("{:?}", v.transport), "threads": v.threads, "hashseed": v.hashseed, "env": v.env, "cwd_subdir": v.subdir})).collect::<Vec<_>>()
+                "transport": format!("{:?}", v.transport), "threads": v.threads, "hashseed": v.hashseed, "env": v.env, "cwd_subdir": v.subdir, "file_name": v.filename})).collect::<Vec<_>>()
         })
     }
 
@@ -485,6 +504,7 @@ impl Prop for C12 {
             "variant.l2.hashseed",
             "variant.l2.environment",
             "variant.l2.repeat",
+            "variant.l2.filename",
             "variant.l1.layout",
             "layout.with_empty_blocks",
             "layout.many_blocks",
